@@ -564,6 +564,7 @@ class Datagram:
 
 
 class Sim:
+    echo_installed_sa_in_expire = True
     def __init__(self, seed=0, t0=1_700_000_000.0):
         install()
         W.sim = self
@@ -669,6 +670,12 @@ class Sim:
         if ipaddress.ip_address(daddr).version == 6:
             family = _socket.AF_INET6
         ev = xfrmdec.enc_expire(daddr, spi, proto, hard, family=family)
+        # like the kernel, the notice echoes the xfrm_usersa_info the SA was installed with (selector included) when the model SAD holds that SA
+        ent = next((v for k, v in ep.kernel.sad.items() if k[2] == bytes(spi) and k[0] == str(ipaddress.ip_address(daddr)) and v.get('req', -1) >= 0), None)
+        if ent is not None and self.echo_installed_sa_in_expire:
+            raw = ep.kernel.requests[ent['req']]['raw']
+            ev = xfrmdec.nlmsg(xfrmdec.EXPIRE, raw[16:240] + bytes([1 if hard else 0]) + bytes(7))
+            proto = raw[16 + 76]
         self.last_expire = (daddr, proto, bytes(spi), hard)
         return ep.step('expire_hard' if hard else 'expire_soft', xfrm_event=ev)
 
@@ -756,7 +763,8 @@ def make_star(seed=0, peers=2, v6=False, **kw):
     confs = []
     for i in range(peers):
         pa = f'2001:db8::{i + 1}' if v6 else f'192.0.2.{i + 1}'
-        ca, cb = pair_conf(v6=v6, index_a=10 + i, index_b=20 + i, **kw)
+        kwi = {k: (v.replace('{i}', str(i + 1)) if isinstance(v, str) else v) for k, v in kw.items()}     # per-peer subnets: a_subnet='10.{i}.0.0/24'
+        ca, cb = pair_conf(v6=v6, index_a=10 + i, index_b=20 + i, **kwi)
         c_peer, c_hub = ca['conn'], cb['conn']
         c_peer['my_addr'], c_peer['peer_addr'] = pa, hub_addr
         c_hub['my_addr'], c_hub['peer_addr'] = hub_addr, pa
